@@ -36,10 +36,11 @@ import (
 
 // Finding ids of this property (see notes/C20.md).
 const (
-	idAlterBelow   = "C20-alter-below-max"    // ALTER TABLE .. AUTO_INCREMENT = n with n <= max(id) is taken verbatim: generated ids collide with / duplicate existing ones
-	idOkFirstRow   = "C20-okresult-first-row" // OkResult.InsertID is the id of the first inserted row even when that id was explicit
-	idIgnoreLastID = "C20-ignore-lastid"      // LAST_INSERT_ID() after INSERT IGNORE counts stored rows, not statement rows, to find the first generated one
-	idReplaceLast  = "C20-replace-lastid"     // REPLACE that generates an id updates neither LAST_INSERT_ID() nor OkResult.InsertID
+	idAlterBelow   = "C20-alter-below-max"     // ALTER TABLE .. AUTO_INCREMENT = n with n <= max(id) is taken verbatim: generated ids collide with / duplicate existing ones
+	idOkFirstRow   = "C20-okresult-first-row"  // OkResult.InsertID is the id of the first inserted row even when that id was explicit
+	idIgnoreLastID = "C20-ignore-lastid"       // LAST_INSERT_ID() after INSERT IGNORE counts stored rows, not statement rows, to find the first generated one
+	idExhaustedDup = "C20-exhausted-duplicate" // non-unique KEY(id): at the type's maximum the maximum is generated again and stored (MySQL: the attempt fails)
+	idReplaceLast  = "C20-replace-lastid"      // REPLACE that generates an id updates neither LAST_INSERT_ID() nor OkResult.InsertID
 )
 
 type intType struct {
@@ -407,9 +408,14 @@ func (m *mach) insert(rt *rapid.T) {
 		switch {
 		case exhausted:
 			// no value left: the statement asks only for "error or no duplicate"
-			for _, p := range prev {
-				if p.id.Cmp(g) == 0 {
-					rt.Fatalf("generated id %v duplicates a stored id (type exhausted)\nstatement: %s\nhistory:\n%s", g, q, m.history())
+			for _, p := range after {
+				if p.id.Cmp(g) == 0 && p.v != st.v {
+					// signature of C20-exhausted-duplicate: no unique key on id, the type's
+					// maximum is stored a second time
+					if !m.pk && g.Cmp(m.typ.max) == 0 && kf.Suppress(m.st, idExhaustedDup) {
+						break
+					}
+					rt.Fatalf("generated id %v duplicates a stored id (type exhausted: the attempt must fail)\nstatement: %s\nhistory:\n%s", g, q, m.history())
 				}
 			}
 			m.st.Class("generated-at-type-max")
@@ -439,9 +445,35 @@ func (m *mach) insert(rt *rapid.T) {
 	m.floor = floor
 	m.rows = after
 
+	// signature of C20-ignore-lastid: INSERT IGNORE skipped some row. The engine finds "the
+	// first generated id" by counting *stored* rows up to the statement index k of the first
+	// generating row: it reports the id of the k-th stored row (generated or not), or nothing
+	// if fewer rows were stored.
+	ignoreSignature := func() bool {
+		if mode != "INSERT IGNORE" || len(kthStored) >= len(rows) || !anyGen {
+			return false
+		}
+		k := 0
+		for i, r := range rows {
+			if r.gen {
+				k = i
+				break
+			}
+		}
+		buggy := prevLast
+		if k < len(kthStored) {
+			buggy = kthStored[k]
+		}
+		return (buggy == nil || sameMod64(gotLast, buggy)) && kf.Suppress(m.st, idIgnoreLastID)
+	}
+
 	// --- reporting ---
 	if firstGen == nil {
 		// nothing generated and stored: LAST_INSERT_ID() keeps its value
+		if prevLast != nil && !sameMod64(gotLast, prevLast) && ignoreSignature() {
+			m.lastID = gotLast
+			return
+		}
 		if prevLast != nil && !sameMod64(gotLast, prevLast) {
 			rt.Fatalf("LAST_INSERT_ID() changed from %v to %v by an insert that stored no generated id\nstatement: %s\nhistory:\n%s", prevLast, gotLast, q, m.history())
 		}
@@ -464,25 +496,8 @@ func (m *mach) insert(rt *rapid.T) {
 		if mode == "REPLACE" && (prevLast == nil || sameMod64(gotLast, prevLast)) && kf.Suppress(m.st, idReplaceLast) {
 			tolerated = true
 		}
-		// signature of C20-ignore-lastid: INSERT IGNORE skipped some row. The engine finds
-		// "the first generated id" by counting *stored* rows up to the statement index k of
-		// the first generating row: it reports the id of the k-th stored row (generated or
-		// not), or nothing if fewer rows were stored.
-		if !tolerated && mode == "INSERT IGNORE" && len(kthStored) < len(rows) {
-			k := 0
-			for i, r := range rows {
-				if r.gen {
-					k = i
-					break
-				}
-			}
-			buggy := prevLast
-			if k < len(kthStored) {
-				buggy = kthStored[k]
-			}
-			if (buggy == nil || sameMod64(gotLast, buggy)) && kf.Suppress(m.st, idIgnoreLastID) {
-				tolerated = true
-			}
+		if !tolerated && ignoreSignature() {
+			tolerated = true
 		}
 		if !tolerated {
 			rt.Fatalf("LAST_INSERT_ID() = %v after an insert whose first generated id is %v (before the statement: %v)\nstatement: %s\ntable after: %s\nhistory:\n%s",
